@@ -35,10 +35,9 @@ class Module(object):
         name = self.name
         from . import alpha, normal
         # meaning-preserving surface forms are undone before any rule looks (core/normal.py, core/alpha.py)
-        self.alpha_mapped = alpha.canonicalise(self.tree, name)      # pure renamings first, so that N3 sees canonical names
-        self.normal_mapped = normal.canonicalise(self.tree, name, stage="pre")
-        self.alpha_mapped += alpha.canonicalise(self.tree, name)
-        self.normal_mapped += normal.canonicalise(self.tree, name, stage="post")
+        nm = normal.normalise_module(self.tree, name)
+        self.alpha_mapped = [(q, d["alpha"]) for (q, d) in nm if "alpha" in d]
+        self.normal_mapped = [(q, dict((k, v) for k, v in d.items() if k != "alpha")) for (q, d) in nm if any(k != "alpha" for k in d)]
         for node in ast.walk(self.tree):
             for ch in ast.iter_child_nodes(node):
                 ch._parent = node
